@@ -393,7 +393,7 @@ func c10Body(c *ev.Ctx) {
 			}
 		}
 	}
-	runLibIsolation(c, 0, 1) // Proof.MarshalJSON / UnmarshalJSON
+	runPairIsolation(c, libScenarios(c, 0, 1)) // Proof.MarshalJSON / UnmarshalJSON
 	c.Set("real_proofs", realN)
 	c.Set("real_proofs_with_short_coordinate", realShort)
 	c.Set("short_coordinate_seen_in_real_proof", realShort > 0)
